@@ -244,6 +244,10 @@ def is_sym(x):
 # --------------------------------------------------------------------------- helpers usable in both modes
 def eq(a, b):
     """equality claim between two numbers (symbolic: exact; concrete replay: relative tolerance)"""
+    if hasattr(a, 'ndim') and a.ndim == 0 and hasattr(a, 'item'):
+        a = a.item()
+    if hasattr(b, 'ndim') and b.ndim == 0 and hasattr(b, 'item'):
+        b = b.item()
     if is_sym(a) or is_sym(b):
         r = (a == b)
         return r
